@@ -1154,6 +1154,14 @@ def rule_declared_length(res, rid, m):
 
                 def forms(x, depth=0):
                     xs = strip_all_casts(facts.expand(f, x))
+                    if xs.get("k") == "ref" and xs.get("dk") == "local" and depth < 3:
+                        # a clamp spelled with an `if` (`n = 16 + L; if (size < n) n = size;`): the value is one of the plain definitions
+                        ds9 = facts.local_defs(f).get(xs["decl"], [])
+                        if len(ds9) > 1 and not any(y.get("k") == "ref" and y.get("decl") == xs["decl"] for d9 in ds9 for y in walk(d9)):
+                            out = []
+                            for d9 in ds9:
+                                out.extend(forms(d9, depth + 1))
+                            return out
                     if xs.get("k") == "call" and callee_name(xs) == "std::min" and depth < 3:
                         out = []
                         for y in xs.get("args", []):
